@@ -687,7 +687,10 @@ class C08(Prop):
             for _ in range(rng.randrange(1, 4)):
                 p2 = dict(pools); p2["ignored"] = b""
                 s = self.rand_string(rng, p2, self.rand_len(rng, False), False)
-                ops.append("sqroundtrip hex=%s rc=%d" % (hx(s), rng.randrange(2)))
+                extra = ""
+                if rng.random() < 0.4: extra += " ss=%s" % hx(bytes(rng.choice(b"<>.()[]{}_-,:AaBb") for _ in range(len(s))))
+                if rng.random() < 0.4: extra += " retry=1"      # rejected (or accepted) digitise, then a second call on the same object
+                ops.append("sqroundtrip hex=%s rc=%d%s" % (hx(s), rng.randrange(2), extra))
                 if name in ("dna", "rna") and rng.random() < 0.5:
                     ops.append("sqrevtext hex=%s" % hx(s))
         return {"name": "std%d-%s" % (idx, name), "ops": ops, "sticky": 1}
